@@ -27,7 +27,8 @@ RULE = ("six case families. filter: line lists assembled from segments (complete
         "300-character strings, lists, dicts, None, computed futures, objects with a multi-line repr) or a generated nest of them, crossed "
         "with the cells that hold a value (quick: 18 representative cells, thorough: all 37); generated trees carry generated payloads. "
         "shared: the failed future several observers look at is not a task - an ErrorFuture, a batch item whose flush called set_error, "
-        "a FutureBase given set_error from outside, a lazy Future whose provider raises - holding the error a failed task chain ended with (chains as in observe); observer sequences as in observe. "
+        "a FutureBase given set_error from outside, a lazy Future whose provider raises - holding the error a failed task chain ended with (chains as in observe); observer sequences as in observe; three pinned cases hold an instance "
+        "no task has prepared (never raised / prepared outside any task). "
         "distinct = different case tree; non-trivial = filter: >= 1 complete and >= 1 partial run; chain: depth >= 2; observe: >= 2 observers; stack: depth "
         ">= 2; repr: every cell / tree with >= 1 nested object")
 TRUSTED = ["regular expressions that read status words back out of str()/repr()/dump() output (harness/impl/c18_impl.py parse_summary) "
@@ -254,7 +255,8 @@ def EOfTask(modes, bottom):
 
 def mk_shared(fk, src, drv, observers, **meta):
     """The failed future every observer looks at is not a task: kind fk, holding the exception src
-    (EOfTask: what a failed task chain ended with)."""
+    (EOfTask: what a failed task chain ended with; EPrepared / EFresh: an instance no task has prepared --
+    pinned corpus cases only, they are listed known findings)."""
     m = {"family": "shared", "pre_yields": 1, "shapes": []}
     m.update(meta)
     return {"tree": {"CShared": [fk, src, drv, [[{"": [h, "true" if c else "false"]} for h, c in o] for o in observers]]},
@@ -839,6 +841,15 @@ CORPUS = [
     # ... a lazy Future whose provider raises it, a future given set_error() from outside; an instance prepared elsewhere
     mk_shared("KLazy", EOfTask([], {"BRaise": [{"n": 1}]}), "HSync", [[("HSync", False)], [("HAwait", True)], []], sync_via=["call"]),
     mk_shared("KSetError", EOfTask([("MLater", "HAwait")], {"BPrepared": [{"n": 0}]}), "HSync", [[("HAwait", False)], [("HAwait", False), ("HSync", False)]]),
+    # ... holding an instance NO task has prepared (pinned here only, not generated: listed known findings, known/C18.json):
+    # ErrorFuture(never raised) awaited by two sibling tasks, then value()
+    mk_shared("KErrorFuture", "EFresh", "HSync", [[("HAwait", False)], [("HAwait", False)], []]),
+    # ErrorFuture(instance prepared for re-raising outside any task) awaited by one task
+    mk_shared("KErrorFuture", "EPrepared", "HSync", [[("HAwait", False)]]),
+    # ... the same asked synchronously in the reader's body (keeps the frames: no finding)
+    mk_shared("KErrorFuture", "EPrepared", "HSync", [[("HSync", False)]]),
+    # lazy Future whose provider raises a new instance, awaited by one task
+    mk_shared("KLazy", "EFresh", "HSync", [[("HAwait", False)]]),
     mk_stack([]),
     mk_stack(["ByParent"] * 3),
     mk_stack(["ByParent", "ByHelper", "BySync", "Pre", "ByParent"]),
@@ -964,17 +975,19 @@ def entry_task(e):
     return None
 
 
-SRC_NAMES = {"EOfTask": "error-of-a-failed-task"}
+SRC_NAMES = {"EOfTask": "error-of-a-failed-task", "EPrepared": "error-prepared-outside-any-task", "EFresh": "error-never-raised"}
 
 
-def expected_shared(src):
+def expected_shared(src, fk=None):
     """Reading of the statement: the frames below the observer's own chain, i.e. the ones the error had when
     the shared future received it (None: the task the error is taken from did not fail)."""
     k = src_kind(src)
     if k == "EOfTask":
         w = expected_chain(src["EOfTask"][0], src["EOfTask"][1])
         return None if w is None else w[1:]
-    raise ValueError(k)
+    # an instance no task has prepared: the frames it has when the future receives it -- the site that prepared
+    # it / none, and below a lazy Future the provider that raises it
+    return ([("provider", 1, 1)] if fk == "KLazy" else []) + ([("prep_site", 1, 1)] if k == "EPrepared" else [])
 
 
 def observer_findings(fs, observers, per, want_f, pre, what, optional=()):
@@ -1031,7 +1044,7 @@ def observer_findings(fs, observers, per, want_f, pre, what, optional=()):
             missing = [n for n in wnames if n not in names]
             if missing:
                 site = pre + ":missing-%s-frame" % ("level" if missing[0].startswith("lvl") else "reader" if missing[0].startswith("rdr")
-                                                     else "raising" if missing[0].startswith(("hlp", "prep")) else "caller")
+                                                     else "raising" if missing[0].startswith(("hlp", "prep", "provider")) else "caller")
             elif sorted(names) == sorted(wnames):
                 site = pre + ":frames-out-of-call-order"
             elif names[-1] != wnames[-1]:
@@ -1146,9 +1159,10 @@ def monitors(c, io, build):
         observer_findings(fs, observers, obs.get("observers") or [], None if want_f is None else want_f[1:], "observe", "task")
     elif fam == "CShared":
         fk, src, drv, observers = c["tree"]["CShared"]
-        want_f = expected_shared(src)
+        want_f = expected_shared(src, fk)
         observer_findings(fs, observers, obs.get("observers") or [], want_f, "shared:%s:%s" % (FKIND_NAMES[fk], SRC_NAMES[src_kind(src)]),
-                          "%s holding %s" % (FKIND_NAMES[fk], SRC_NAMES[src_kind(src)]), optional=("provider",))
+                          "%s holding %s" % (FKIND_NAMES[fk], SRC_NAMES[src_kind(src)]),
+                          optional=("provider",) if src_kind(src) == "EOfTask" else ())
     elif fam == "CStack":
         s0, cs, srcs = stack_levels(c)
         want = expected_stack(cs)
